@@ -54,6 +54,10 @@ func (c02) RunBatch(ctx *core.Ctx, batch int) {
 			}
 			c02Hostile(ctx, h)
 		}
+		rv := ctx.Rand("random-values")
+		for i := 0; i < 120; i++ {
+			c02Hostile(ctx, gen.RandString(rv))
+		}
 		for i, h := range gen.AsciiPrintable() {
 			if i%p.nHostile != which {
 				continue
